@@ -1186,6 +1186,12 @@ impl Sup {
                 f.insert("len".into(), json!(a[2]));
                 io_len_arg = Some(2);
                 mutating = sc.name == "write";
+                if sc.name == "write" && a[0] as i32 == 99 {
+                    // the API probe's update stream: keep the payload
+                    let n = std::cmp::min(a[2] as usize, 512);
+                    let b = self.read_mem(a[1], n);
+                    f.insert("upd".into(), Value::String(String::from_utf8_lossy(&b).to_string()));
+                }
             }
             "pread64" | "pwrite64" => {
                 f.insert("len".into(), json!(a[2]));
@@ -1431,7 +1437,7 @@ impl Sup {
         self.seq += 1;
         let keep = match self.cfg.log.as_str() {
             "none" => false,
-            "sandbox" => ci.sb || ci.mutating,
+            "sandbox" => ci.sb || ci.mutating || ci.fields.contains_key("upd"),
             _ => true,
         };
         if keep {
